@@ -659,6 +659,9 @@ def predicates(c, obs):
                 blk_all_ok = []
                 continue
             sb, sa = int(o["sumBefore"]), int(o["sumAfter"])
+            if o["accepted"] and c["blocks"][o["blk"]].get("cidmut"):
+                fails.append(("C04", "foreign-chain-executed", "a block whose header names a chain id differing from the local one (%s) was connected and its "
+                              "transactions, bound to that other chain id, were executed" % c["blocks"][o["blk"]]["cidmut"], {"block": o["blk"]}))
             if o["accepted"]:
                 fees = int(o["feeSum"])
                 paid = c["coinbase"] != 0
@@ -706,7 +709,7 @@ def predicates(c, obs):
                         if t["replayof"]:
                             t = dict(t, signer=all_txs[t["replayof"] - 1]["signer"])
                         return t["signer"] == want
-                    if inc and allok and len(inc) == len(c["blocks"][o["blk"]]["txs"]) and all(signer_ok(t) for t in inc):
+                    if inc and allok and not c["blocks"][o["blk"]].get("cidmut") and len(inc) == len(c["blocks"][o["blk"]]["txs"]) and all(signer_ok(t) for t in inc):
                         fails.append(("C04", "valid-rejected", "a block whose transactions all execute and are all correctly signed was refused: " + str(o.get("addErr")),
                                       {"block": o["blk"]}))
                 if sa != sb:
@@ -912,6 +915,11 @@ def corpus_cases(pid):
         for w in (0, 1, 4):
             case("chain", [{"txs": json.loads(json.dumps(X))}, {"txs": json.loads(json.dumps(Y))}, {"txs": json.loads(json.dumps(Yok))}],
                  "verifier", workers=w, fund=[[str(u), str(5000 * AERGO)] for u in (10, 11, 12, 13)], ids=[1, 2, 3, 10, 11, 12, 13, 30])
+        # foreign chain id: the block HEADER names a chain differing from the local one in a single ChainID field and
+        # its txs are signed for that id; no such block may be connected, no such tx may execute (implementation only)
+        for mut in ("mainnet", "publicnet", "magic", "consensus"):
+            case("chain", [{"txs": [ok(1), ok(2)]}, {"txs": [ok(3), T("transfer", 11, 1, to=10, amount="9")], "cidmut": mut},
+                           {"txs": [ok(3)]}], "foreignchain")
         # same-block sequences: a name is re-pointed / created / the contract owner set, and a later tx of the SAME
         # block is sent "from" that name: the executor must still resolve the name as of the start of the block
         # (the view the signature check uses); the tx written for the NEW destination's nonce must not execute
@@ -991,7 +999,7 @@ def run_check(ctx, pid):
         cases.append(c)
     obs = run_engine(ctx, binp, cases, "cases")
     fill_enterprise_oracle(cases, obs)
-    modelled = [c for c in cases if c.get("tag") != "nomodel"]
+    modelled = [c for c in cases if c.get("tag") not in ("nomodel", "foreignchain")]
     plain = [c for c in cases if c.get("tag") != "f23"]
     mod = eval_model(ctx, modelled, obs, fixed, "m")
     bad = [c for c in modelled if not compare_chk(go_vectors(c, obs[c["id"]]), mod[c["id"]])]
